@@ -5,6 +5,15 @@ import json, subprocess
 LOOPNOTE = 'Trusts: A1 token contract (lower-case tag names, exact serialiser/tokeniser round trip), sanitizeAttrs replaced by an arbitrary-result stub, policy tables of at most 2 entries per kind (an upper bound that is general for one step: one step looks up one name per table), z3 5.1 / cvc5 1.0, go/ssa semantics as interpreted.'
 
 CLAIMED = {
+ "C02": dict(
+   text="Unit-level symbolic execution of the real sanitizeAttrs with symbolic element-rule and global-rule tables (symbolic keys, rule lists of every shape up to two rules with opaque value patterns) on up to 2/3 attributes with free keys and values: SMT decides on every path that each emitted attribute equals an input attribute that some applicable rule accepts (spec written from the statement, patterns judged on the decoded value). Separately: isDataAttribute executed on a free key (A1) implies the HTML standard's data-* shape; matchRegex returns rules only from matching patterns; and, on the extracted loop relation (induction), no start/self-closing tag is written with zero attributes unless the element is allowed without attributes.",
+   note="Trusts: A1 key alphabet; value patterns as uninterpreted predicates; strings.Split model bounded to 3 parts for the data-attribute check; table sizes 1 (quick) / 2 (thorough) symbolic entries per table; style and URL/link/forced attributes are the subject of C10/C03/C11/C12; z3 5.1 / cvc5 1.0; go/ssa semantics as interpreted.",
+   technique="symbolic execution of go/ssa + SMT (unit harness with symbolic policy tables; induction on the loop relation for bare elements)", design="5 C02"),
+ "C07": dict(
+   text="Same unit harness as C02, converse direction: whenever every input attribute is accepted by some rule of the element or global tables (any one of overlapping rules, in any list position), sanitizeAttrs returns the list unchanged and in order; matchRegex merges the rules of all matching element patterns (both map iteration orders explored). Decided per path by SMT with opaque value patterns.",
+   note="Trusts: as C02. Byte-for-byte equality of documents follows from token equality by A1; element-level passage of allowed tags is covered by the C06 step expectations.",
+   technique="symbolic execution of go/ssa + SMT (unit harness with symbolic policy tables)", design="5 C07"),
+
  "C12": dict(
    text="Unit-level symbolic execution of the real sanitizeAttrs on audio/img/link/script/video/iframe/other with up to 2 (quick) / 3 (thorough) attributes (keys crossorigin/sandbox/other/free, free values, sandbox values of up to 3/4 tokens), with crossorigin forcing and/or a sandbox allowlist in which every one of the fourteen documented tokens is allowed or not by its own symbolic boolean (all 2^14 subsets in one run). SMT decides per path: every crossorigin equals anonymous and one exists; a sandbox attribute exists, every token of the emitted value (re-split on white space) is a listed token, no token occurs twice, the value is in canonical single-space form. The real RequireSandboxOnIFrame/AllowIFrames are executed on each documented value and the resulting table compared with the documented token.",
    note="Trusts: strings.Fields / strings.Join models (validated differentially), Fields bounded to 3/4 tokens per sandbox value (longer values cut and counted), z3 5.1 / cvc5 1.0, go/ssa semantics as interpreted.",
